@@ -56,7 +56,10 @@ pub fn run(_args: &[String]) {
             for in_reader in [false, true] {
                 for action in ["accept", "promote", "replace"] {
                     for pop in ["same", "diff", "notfound", "error"] {
-                        for checker in [false, true] {
+                        // 0: no checker; 1: the stock byte-equality checker; 2: a custom checker that rejects a difference
+                        // with an error of kind NotFound (the kind `populate` uses to opt out: the two must not be confused)
+                        for checker_mode in [0u8, 1, 2] {
+                            let checker = checker_mode != 0;
                             evals += 1;
                             let root = tempfile::tempdir().unwrap();
                             let wdir = root.path().join("w");
@@ -77,8 +80,19 @@ pub fn run(_args: &[String]) {
                                 _ => {}
                             }
                             b.plain_reader(&rdir);
-                            if checker {
+                            if checker_mode == 1 {
                                 b.byte_equality_checker();
+                            } else if checker_mode == 2 {
+                                b.consistency_checker(|x: &mut std::fs::File, y: &mut std::fs::File| {
+                                    let (mut bx, mut by) = (Vec::new(), Vec::new());
+                                    x.read_to_end(&mut bx)?;
+                                    y.read_to_end(&mut by)?;
+                                    if bx == by {
+                                        Ok(())
+                                    } else {
+                                        Err(Error::new(ErrorKind::NotFound, "copies differ"))
+                                    }
+                                });
                             }
                             let cache = b.build();
                             let key = Key::new(name, 11, 22);
